@@ -57,6 +57,7 @@ class Ctx:
                     "tlc_runs": [], "parts": {}}
         self.assumptions = []
         self.violations = []      # confirmed mismatches (dicts)
+        self.unconfirmed = []     # mismatches that did not reproduce when re-executed alone
         self.known = []           # mismatches matching a known finding
         self.notes = []
         self.harness_bin = None
@@ -375,7 +376,11 @@ class Ctx:
                 continue
             if confirm is not None and len(self.violations) < 20:
                 if not confirm(m):
-                    raise MachineryError("mismatch not reproduced in isolation: %s" % json.dumps(m)[:2000])
+                    # not a verdict: remembered, and a machinery error unless another mismatch reproduces
+                    self.unconfirmed.append(m)
+                    if len(self.unconfirmed) >= 12 and not self.violations:
+                        break
+                    continue
             self.violations.append(m)
 
     def sample(self, x):
@@ -387,6 +392,10 @@ class Ctx:
 
     # ---------------------------------------------------------------- finish
     def finish(self, level="model_checking"):
+        if self.unconfirmed and not self.violations:
+            raise MachineryError("%d mismatch(es) did not reproduce in isolation and none did: %s" % (len(self.unconfirmed), json.dumps(self.unconfirmed[0])[:1500]))
+        if self.unconfirmed:
+            self.notes.append("%d further mismatches did not reproduce when re-executed alone (history- or schedule-dependent)" % len(self.unconfirmed))
         wall = time.time() - self.t0
         seen = set()
         for k, m in self.known:
